@@ -6,7 +6,7 @@ ids=${@:-$(ls seeded | grep -v -E 'RESULTS|LAST_RUN')}
 out=seeded/LAST_RUN.md
 { echo "# Last run of the quick checks against the kept seeded changes"; echo; echo "/repo $(git -C /repo rev-parse --short HEAD), /verif $(git rev-parse --short HEAD), $(date -u +%Y-%m-%dT%H:%MZ)"; echo; echo "| seed | property | result |"; echo "|---|---|---|"; } > $out.tmp
 for id in $ids; do
-  prop=${id%%-*}; prop=${prop%r2}; prop=${prop%r3}
+  prop=${id%%-*}; prop=${prop%r2}; prop=${prop%r3}; prop=${prop%r4}; prop=${prop%r5}
   r=$(bin/seedtest2.sh /verif/seeded/$id/patch.diff $prop 2>&1 | grep -E "^\[$prop\]|does not|not clean" | head -1)
   tag=$(echo "$r" | grep -o "replay=[^ ]*" | sed 's#.*seed[0-9]*-##; s#/replay.json##')
   case "$r" in
